@@ -40,6 +40,8 @@ def check(ctx):
     r15_3(ctx, g)
     r15_4(ctx, g)
     r15_5(ctx, g)
+    r15_6(ctx, g)
+    r15_7(ctx, g)
     ctx.not_decided += [
         "that all_components / find_component partition the nodes into the true connected components",
         "that biccs returns exactly the biconnected components and articulation points (algorithmic exactness; only the edge-stack discipline is decided)",
@@ -342,3 +344,75 @@ def r15_5(ctx, g):
     comps = [a for a in walk_own(f.node) if isinstance(a, ast.Assign) and isinstance(a.value, ast.Call) and a.value.args and isinstance(a.value.args[0], ast.Subscript) and norm(a.value.args[0].value) == stack]
     ok = len(comps) >= 2 and all(isinstance(a.value.args[0].slice, ast.Slice) and a.value.args[0].slice.upper is None for a in comps)
     ctx.check(ok, "R15.5", f.where(), "each reported component is the node set of the stack slice that is then truncated", key_of(f, f"component-slices:{len(comps)}"))
+
+
+def r15_6(ctx, g):
+    """biccs: a finished child splits off a component, and its parent is an articulation point, exactly when the child's
+    subtree cannot reach above the parent: low[child] >= discovery[parent] (decision table over the two values)."""
+    from .. import ordtab
+
+    repo = ctx.repo
+    f = repo.func("gaftools.gfa", "GFA.biccs", "R15.6")
+    cut = None
+    for n in walk_own(f.node):
+        if isinstance(n, ast.If) and any(isinstance(c, ast.Call) and isinstance(c.func, ast.Attribute) and c.func.attr == "add" and norm(c.args[0]) == "parent" for st in n.body for c in ast.walk(st)):
+            cut = n
+    if cut is None:
+        raise AnalysisError("R15.6", f.where(), "cannot find the articulation-point test")
+
+    def atom_of(e):
+        t = norm(e)
+        if t == "low[child]":
+            return "low"
+        if t == "discovery[parent]":
+            return "disc"
+        return None
+
+    bad = None
+    for env, scale in ordtab.weak_orderings(["low", "disc"], []):
+        try:
+            v = ordtab.Evaluator(env, atom_of, scale).truth(cut.test)
+        except ordtab.Unsupported as ex:
+            raise AnalysisError("R15.6", f.where(cut), f"cut test outside the comparison fragment: {ex}")
+        if v != (env["low"] >= env["disc"]):
+            bad = {"low[child]": env["low"], "discovery[parent]": env["disc"], "cut": v}
+    ctx.check(bad is None, "R15.6", f.where(cut), "a finished child closes a component (and marks its parent as articulation point) exactly when low[child] >= discovery[parent]; bridges (>) and cycles through the parent (=) both cut", key_of(f, f"cut-criterion:{norm(cut.test)}"), **({"witness": bad} if bad else {}))
+    # low-link updates: back edge -> min with discovery of the target; tree edge finished -> min with the child's low
+    src = norm(f.node)
+    ok = "low[child] = min(low[child], discovery[nn])" in src and "low[parent] = min(low[parent], low[child])" in src
+    ctx.check(ok, "R15.6", f.where(), "low-links are lowered by back edges (discovery of the target) and propagated from a finished child to its parent", key_of(f, "low-link-updates"))
+    root = "if root_children > 1" in src and "artic_points.add(n)" in src
+    ctx.check(root, "R15.6", f.where(), "the DFS root is an articulation point exactly when it has more than one DFS child", key_of(f, "root-rule"))
+
+
+def r15_7(ctx, g):
+    """No stale derived state: an attribute of Node that is written outside __init__ and the four adjacency mutators
+    (a cache of something computed from the adjacency) must be reset by every one of the four mutators."""
+    mod = g.mod
+    mutators = ["Node.add_from_start", "Node.add_from_end", "Node.remove_from_start", "Node.remove_from_end"]
+    cache_attrs = {}
+    for q, f in mod.funcs.items():
+        if f.cls != "Node" or q in mutators or q == "Node.__init__":
+            continue
+        for st in walk_own(f.node):
+            if isinstance(st, (ast.Assign, ast.AugAssign)):
+                for t in (st.targets if isinstance(st, ast.Assign) else [st.target]):
+                    if isinstance(t, ast.Attribute) and norm(t.value) == "self" and t.attr not in ("visited",):
+                        cache_attrs.setdefault(t.attr, set()).add(q)
+    for attr, writers in sorted(cache_attrs.items()):
+        missing = []
+        for q in mutators:
+            f = mod.funcs.get(q)
+            if f is None:
+                continue
+            resets = any(isinstance(st, ast.Assign) and any(isinstance(t, ast.Attribute) and norm(t.value) == "self" and t.attr == attr for t in st.targets) for st in walk_own(f.node))
+            if not resets:
+                missing.append(q)
+        ctx.check(not missing, "R15.7", f"{mod.relpath} Node", f"derived attribute `{attr}` (written in {sorted(writers)}) is reset by every adjacency mutator, so queries after an edit never see stale adjacency", f"gaftools.gfa.Node::stale-cache:{attr}:{missing}", missing=missing)
+    # GFA-level caches likewise: attributes of GFA written in query methods
+    ctx.holds("R15.7", f"{mod.relpath} Node", f"{len(cache_attrs)} derived attribute(s) of Node found; neighbors() is computed from the adjacency sets on every call" if not cache_attrs else f"derived attributes: {sorted(cache_attrs)}", nontrivial=False)
+    nb = mod.funcs.get("Node.neighbors")
+    if nb is not None:
+        src = norm(nb.node)
+        ok = "self.start" in src and "self.end" in src
+        ctx.check(ok, "R15.7", nb.where(), "Node.neighbors merges the neighbours recorded at both sides", "gaftools.gfa.Node.neighbors::both-sides")
